@@ -144,3 +144,25 @@ func init() {
 		}
 	})
 }
+
+func init() {
+	register("PARSE", func(e *Env) {
+		parsePrelude()
+		e.perShard = 250
+		for _, s := range []string{"", "a", "<%= 1 %>", "<% let x = 1 %><%= x %>", "<%= a.b.c %>", "<%= f(1, 2) %>", "<%= x[0].y %>", "<%= if (a) { %>x<% } else { %>y<% } %>",
+			"<% for (k,v) in xs { %><%= v %><% } %>", "<%= {a: 1, \"b\": 2} %>", "<%= [1,2][0] %>", "<% let f = fn(a,b) { return a + b } %>", "<%# c %>x", "<%= a.B[0].C[1].D %>", "<%= f(x).y %>", "<%= f(x).y.z() %>",
+			"<%= 1 + 2 * 3 - 4 / 5 %>", "<%= !a && b || c == d %>", "<% x = 2 %>", "<% a[0] = 1 %>", "<%= a.b(1) { %>t<% } %>", "<% if (1 [2]) { } %>", "<%= (1 + 2) * 3 %>", "<%= -1 %>", "<% return 1 %>",
+			"<% for (x) in f() { %>b<% } %>", "<% break %>", "<% for (x) in xs { break } %>", "<%= 99999999999999999999 %>", "<%= 1.5 + .5 %>", "<% if (true) { %>a<% } else if (false) { %>b<% } else { %>c<% } %>"} {
+			e.addParseCase("fixed", s)
+		}
+		n := 1500
+		if e.Thorough() {
+			n = 20000
+		}
+		for i := 0; i < n; i++ {
+			fr := []string{"<% ", "<%= ", "<%# ", "", "x<%", "<% if (a) { %>", "<% for (v) in xs { %>"}[e.Rng.Intn(7)]
+			cl := []string{" %>", "", " %>y", "%", " } %>", "<% } %>"}[e.Rng.Intn(6)]
+			e.addParseCase("soup", fr+randSoup(e.Rng, 1+e.Rng.Intn(10))+cl)
+		}
+	})
+}
